@@ -873,6 +873,30 @@ func runC12(c *hc.Ctx) error {
 				cases = append(cases, genC12Case(c.Rng, len(cases), p, []int{0, 1, 49, 50, 51, 100, 120}[c.Rng.Intn(7)]))
 			}
 		}
+		// bulk pages: row counts at which batching by a database limit would wrap around — SQLite's limits on bound
+		// parameters (999 in older builds, 32766 now) divided by 1..8 columns, once and twice, and their neighbours —
+		// written as one page (default page size 1000 or a page larger than the stream) and as full pages plus a rest
+		var bulk []int
+		for _, lim := range []int{999, 32766} {
+			for cols := 1; cols <= 8; cols++ {
+				bulk = append(bulk, lim/cols, 2*(lim/cols))
+			}
+		}
+		nb := c.N(10, 120)
+		for b := 0; b < nb; b++ {
+			n := bulk[c.Rng.Intn(len(bulk))]
+			if c.Tier != "thorough" && (n > 8200 || (b > 0 && n > 4000)) { // quick: one long stream (up to 32766/4 rows) is enough
+				n = bulk[c.Rng.Intn(16)]
+			}
+			n += []int{0, 0, 0, 0, -1, 1}[c.Rng.Intn(6)]
+			p := []int{1000, 1000, n + 1 + c.Rng.Intn(50), n, (n + 1) / 2, 100000}[c.Rng.Intn(6)]
+			if p < 1 {
+				p = 1
+			}
+			k := genC12Case(c.Rng, len(cases), p, n)
+			k.Class = "bulk " + k.Class
+			cases = append(cases, k)
+		}
 	}
 	results, err := runC12Cases(dir, cases, 16)
 	if err != nil {
@@ -912,7 +936,11 @@ func runC12(c *hc.Ctx) error {
 			v := hc.Violation{What: p.What, Input: k, Observed: p.Observed, Expected: p.Expected}
 			c.Violate(v)
 		}
-		if r.Obs.Err == "" && r.Obs.File.Err == "" {
+		if n > 1200 {
+			// a very long stream: decided by the oracle on the implementation only (a Coq term of tens of megabytes
+			// overflows coqc's stack); the model sees the bulk streams of up to 1200 rows
+			c.Count("bulk stream of more than 1200 rows: oracle only, no correspondence case")
+		} else if r.Obs.Err == "" && r.Obs.File.Err == "" {
 			c.Case(c12CoqCase(k, r.Obs), map[string]any{"case": k, "observed_counter_delta": r.Obs.C1 - r.Obs.C0})
 		}
 		if k.ID >= 1 && k.ID <= 3 {
